@@ -4,6 +4,7 @@ from __future__ import annotations
 
 import ast
 
+from ..alpha import Loc
 from ..const import UNKNOWN, Folder
 from ..flow import Slicer
 from ..model import FuncInfo, Model, dotted, norm, walk_no_nested, walk_with_lambdas
@@ -129,11 +130,16 @@ def check(model: Model, run: Run) -> None:
         if 'path_info' in txt:
             n_pi += 1
             marks = {}
+            il = Loc(model, ix)
             for n_ in walk_no_nested(ix.node):
-                if isinstance(n_, ast.If) and isinstance(n_.test, ast.Compare) and isinstance(n_.test.ops[0], ast.Is) and 'path_info' in norm(n_.test.left):
+                if isinstance(n_, (ast.If, ast.IfExp)) and isinstance(n_.test, ast.Compare) and isinstance(n_.test.ops[0], ast.Is) and 'self.path_info' in il.expand(n_.test.left):
                     which = (dotted(n_.test.comparators[0]) or '').rsplit('.', 1)[-1]
+                    if isinstance(n_, ast.IfExp):
+                        if isinstance(n_.body, ast.Constant) and isinstance(n_.body.value, bytes):
+                            marks[which] = n_.body.value
+                        continue
                     for st in n_.body:
-                        if isinstance(st, ast.Assign) and isinstance(st.value, ast.Constant) and isinstance(st.value.value, bytes):
+                        if isinstance(st, (ast.Assign, ast.Return)) and isinstance(st.value, ast.Constant) and isinstance(st.value.value, bytes):
                             marks[which] = st.value.value
             ok = set(marks) >= {'NOPATH', 'DISABLED'} and len(set(marks.values())) == len(marks) and all(len(v) not in (0, 4) for v in marks.values())
             run.check(ok, cq, 'index() markers %s' % {k: v for k, v in marks.items()}, ix.loc(), 'a route without ADD-PATH and a route with a path id must not produce the same index: without a constant marker for the DISABLED / NOPATH cases the first four bytes of one route (mask, RD...) are read as the path id of another')
